@@ -66,6 +66,11 @@ func (k c03Case) options(w *bytes.Buffer) []goat.RunOption {
 
 // run executes one case; the result is "" if the entry point returned normally (with or without
 // an error that names its stage), else a description of the violation.
+// c03Watchdog: how long one entry-point call may take before it counts as not returning. The slowest legitimate case
+// (a 12-million-term constant expression) takes about 8 s on an idle 16-core sandbox; `vp check` #16 ran on a copy
+// that was 3.5 times slower and under load, where the former 60 s limit raised a false alarm (DESIGN 0a.4).
+const c03Watchdog = 300 * time.Second
+
 func (k c03Case) run() (verdict string, errText string) {
 	done := make(chan string, 1)
 	var et string
@@ -144,8 +149,8 @@ func (k c03Case) run() (verdict string, errText string) {
 	select {
 	case v := <-done:
 		return v, et
-	case <-time.After(60 * time.Second):
-		return "wedged: no return after 60s", ""
+	case <-time.After(c03Watchdog):
+		return fmt.Sprintf("wedged: no return after %v", c03Watchdog), ""
 	}
 }
 
@@ -364,7 +369,7 @@ func (c *Ctx) c03Cases(n int) []c03Case {
 }
 
 func runC03(c *Ctx) error {
-	c.Rep.Rule = "search: Eval on random byte strings (0..40 bytes), token soups (0..24 tokens incl. broken literals and stray quotes), 1..3 byte/token/line mutations of every string literal of the repository's tests and of generated programs; Load and Eval-imports on random in-memory trees (1..4 packages, odd file names, empty files, wrong or missing package clauses, well- and ill-formed build constraints, missing / cyclic / self / malformed imports) with random load arguments; Call and Func on missing names, non-function values, wrong argument counts and requested result counts -1..3; deep nesting (millions of parentheses, unary operators, nested calls, blocks, literals; long operator, selector and index chains; announced before the run so that a fatal stack overflow still yields a replay); every subset of WithTreeDump / WithCodeDump / WithEvalImports (also a nil map); each run under a recover and a 60 s watchdog with a 200000-instruction budget; every error of Eval and Load must carry a stage prefix; distinct = distinct case; non-trivial = the entry point returned an error"
+	c.Rep.Rule = "search: Eval on random byte strings (0..40 bytes), token soups (0..24 tokens incl. broken literals and stray quotes), 1..3 byte/token/line mutations of every string literal of the repository's tests and of generated programs; Load and Eval-imports on random in-memory trees (1..4 packages, odd file names, empty files, wrong or missing package clauses, well- and ill-formed build constraints, missing / cyclic / self / malformed imports) with random load arguments; Call and Func on missing names, non-function values, wrong argument counts and requested result counts -1..3; deep nesting (millions of parentheses, unary operators, nested calls, blocks, literals; long operator, selector and index chains; announced before the run so that a fatal stack overflow still yields a replay); every subset of WithTreeDump / WithCodeDump / WithEvalImports (also a nil map); each run under a recover and a 300 s watchdog with a 200000-instruction budget; every error of Eval and Load must carry a stage prefix; distinct = distinct case; non-trivial = the entry point returned an error"
 	n := 4000
 	if c.Thorough() {
 		n = 400000
@@ -394,6 +399,9 @@ func runC03(c *Ctx) error {
 	for _, d := range deep {
 		if !c.Thorough() && d.n > 500000 && len(d.open)+len(d.close) > 3 {
 			d.n = 500000 // the long shapes; one- and two-character shapes keep millions of levels (a few MB of source)
+		}
+		if !c.Thorough() && d.n > 4000000 {
+			d.n = 4000000 // (the quick tier runs on machines of any speed; the thorough tier keeps the full size)
 		}
 		for _, o := range []int{0, 3} {
 			// (with the dump options too: the dump is written level by level and bounded like the compiler)
